@@ -89,6 +89,40 @@ fn main() {
             };
             std::process::exit(code);
         }
+        "oracle" => {
+            // wmon oracle "<fen>" [move ...] : debugging aid - oracle view of a position
+            let mut p = oracle::Pos::parse_fen(&args[2]).expect("fen");
+            for m in &args[3..] {
+                let mv = oracle::parse_mv(m).expect("move");
+                println!("{} legal: {}", m, oracle::legal_moves(&p).contains(&mv));
+                p = oracle::apply(&p, mv);
+            }
+            println!("fen {} legal_position {:?} in_check {}", p.to_fen(), oracle::legal_position_reason(&p), oracle::in_check(&p, p.stm));
+            let ms = oracle::legal_moves(&p);
+            println!("{} legal moves:", ms.len());
+            for m in ms {
+                let q = oracle::apply(&p, m);
+                let mut s = oracle::Solver::new(2_000_000);
+                println!("  {} {}{}{}", m, if oracle::is_checkmate(&q) { "MATE " } else { "" }, if oracle::is_stalemate(&q) { "STALEMATE " } else { "" }, if s.mate_in(&q, 1) == Some(true) { "(opponent then mates in 1)" } else { "" });
+            }
+            let eb = glue::engine_from_pos(&p).unwrap();
+            let h = zobrist::ZobristHasher::create_zobrist_hasher();
+            let em: Vec<String> = move_generation::generate_moves(&eb, move_generation::MoveGenerationMode::AllMoves, &h).iter().map(|s| glue::mv_of(s).map(|m| m.to_string()).unwrap_or_default()).collect();
+            println!("engine generates {}: {}", em.len(), em.join(" "));
+        }
+        "search" => {
+            // wmon search "<position command>" <depth limit> [expiry index] : event list of one real search
+            let hist = mon::replay::history_from_command(&args[2]).expect("position command");
+            let h = zobrist::ZobristHasher::create_zobrist_hasher();
+            let root = mon::search::make_root(hist, &h).expect("root");
+            let d: u8 = args[3].parse().unwrap();
+            let k: Option<u64> = args.get(4).and_then(|x| x.parse().ok());
+            let r = mon::searchlib::run_search(&root.board, &root.table, k, d);
+            for l in mon::searchlib::nev_text(&mon::searchlib::normalise(&r.report.events)) {
+                println!("{}", l);
+            }
+            println!("queries {} panic {:?}", r.report.queries, r.panic);
+        }
         "go-job" => {
             let seed: u64 = args.get(2).and_then(|s| s.parse().ok()).unwrap_or(1);
             let n: usize = args.get(3).and_then(|s| s.parse().ok()).unwrap_or(3);
